@@ -25,7 +25,6 @@ import pipeline
 
 SILENCED_VALUE = {"PREPROC_CONSTANT"}                      # what the property calls the #define-value diagnostics
 F_SILENCES_MORE = "C16-R-checkdefine-silences-more"
-F_INLINE_NEWLINES = "C16-inline-no-newline-translation"
 
 DIAG_RE = re.compile(r"^(Error|Notice): (.{20,}?) \(line: *(\d+), col: *(\d+)\):\t(.*)$")
 VERDICT_RE = re.compile(r"^(.*): (OK|Error)!$")
@@ -260,7 +259,7 @@ def judge(name, src, cls, base, results):
     """evaluate the property on the parsed outputs.  -> (problems, stats)"""
     problems = []
     stats = {"compared": 0, "nontrivial": 0, "excluded_no_verdict": 0, "fatal_debug0_verdict_debug": 0, "skip_runs": 0,
-             "inline_runs": 0, "known_more": 0, "known_newline": 0, "timeouts": 0}
+             "inline_runs": 0, "known_more": 0, "timeouts": 0}
     # reference: the baseline when it reached a verdict, otherwise the first path-mode, non-skip run that did
     ref = base if base["kind"] == "verdict" else None
     ref_o = BASE
@@ -281,7 +280,7 @@ def judge(name, src, cls, base, results):
             stats["excluded_no_verdict"] += 1
             # the model says: presentation options and the input mode cannot change whether the analysis ends
             if rf is not None and r["kind"] in ("crash", "malformed", "empty", "fatal") and o["debug"] == 0 \
-                    and (own is not None or base["kind"] == "verdict") and "\r" not in src:
+                    and (own is not None or base["kind"] == "verdict"):
                 problems.append(("correspondence-no-verdict-under-presentation-option",
                                  dict(data, got=r.get("kind"), detail=r.get("exc") or r.get("why") or r.get("msg"),
                                       stdout=r.get("stdout", "")[-1500:]), None))
@@ -320,26 +319,19 @@ def judge(name, src, cls, base, results):
             kept_value = [x for x in got if x[1] in SILENCED_VALUE]
             if not added and not kept_value and more and all(x[1] in ("MACRO_NAME_CAPITAL", "MACRO_FUNC_FORBIDDEN") for x in more) \
                     and len(got) + len(removed) == len(want) and r["verdict"] == status_of(got):
-                if not (o["mode"] != "path" and "\r" in src):
-                    stats["known_more"] += 1
-                    problems.append(("R-checkdefine-silences-more", dict(data, silenced_beyond_define_value=more), F_SILENCES_MORE))
-                    continue
-            if o["mode"] != "path" and "\r" in src:
-                stats["known_newline"] += 1
-                problems.append(("inline-differs-from-file", dict(data, cr_in_content=True), F_INLINE_NEWLINES))
+                stats["known_more"] += 1
+                problems.append(("R-checkdefine-silences-more", dict(data, silenced_beyond_define_value=more), F_SILENCES_MORE))
                 continue
-            problems.append(("R-checkdefine-changes-other-diagnostics", dict(data, removed=removed, added=added), None))
+            problems.append(("R-checkdefine-changes-other-diagnostics" if o["mode"] == "path" else "inline-differs-from-file",
+                             dict(data, removed=removed, added=added, with_R_checkdefine=True), None))
             continue
         if got == want and r["verdict"] == rf["verdict"]:
             continue
         if o["mode"] != "path":
-            if "\r" in src:
-                stats["known_newline"] += 1
-                problems.append(("inline-differs-from-file", dict(data, cr_in_content=True), F_INLINE_NEWLINES))
-            else:
-                # is it the inline mode or one of the other options?  name the culprit in the kind
-                problems.append(("inline-differs-from-file" if all(o[k] == BASE[k] for k in ("colors", "fmt", "o", "debug")) and not o["R"]
-                                 else "diagnostics-depend-on-options", data, None))
+            # is it the inline mode or one of the other options?  name the culprit in the kind
+            problems.append(("inline-differs-from-file" if ("\r" in src or (all(o[k] == BASE[k] for k in ("colors", "fmt", "o", "debug"))
+                                                                           and not o["R"]))
+                             else "diagnostics-depend-on-options", dict(data, cr_in_content="\r" in src), None))
             continue
         problems.append(("diagnostics-depend-on-options", data, None))
     # coloured text minus the colour sequences = uncoloured text (same other options, no debug, humanized)
@@ -418,13 +410,33 @@ Definition dchk (skip up lp bad : bool) : list Z :=
 
 
 NL_HEADER = """From NV Require Import Model.Options.
-Definition nl (x : str) : list Z := map Z.of_N (universal_newlines x).
+Definition nl (x : str) : list Z := map Z.of_N (universal_newlines x) ++ [-1] ++ map Z.of_N (translate_inline x).
 """
 
 
 def newline_cases(workdir):
-    """all strings of length <= 6 over {a, CR, LF}: written as bytes, read back through norminette.file.File.source"""
+    """all strings of length <= 6 over {a, CR, LF}: written as bytes and read back through norminette.file.File.source;
+    given to main() as --cfile=<string> and observed as the source main() hands to File (None for the empty string,
+    which main() ignores)"""
     from norminette.file import File
+    import norminette.__main__ as M
+
+    class Stop(Exception):
+        pass
+
+    def inline_source(x):
+        got = []
+
+        def F(path, source=None):
+            got.append(source)
+            raise Stop()
+        orig = M.File
+        M.File = F
+        try:
+            impl.run_main(["--cfile=" + x, "--filename=nl.c"], cwd=d)
+        finally:
+            M.File = orig
+        return got[0] if got else None
     d = os.path.join(workdir, "nl")
     os.makedirs(d, exist_ok=True)
     out = []
@@ -434,7 +446,7 @@ def newline_cases(workdir):
             p = os.path.join(d, "n%d.c" % len(out))
             with open(p, "wb") as f:
                 f.write(x.encode())
-            out.append((x, File(p).source))
+            out.append((x, File(p).source, inline_source(x) if x else None))
             os.remove(p)
     return out
 
@@ -494,7 +506,6 @@ def run(run, tier, seed, replay=None):
     found = False
     rnd = random.Random(seed)
     workdir = tempfile.mkdtemp(prefix="nvc16_")
-    t_start = time.time()
     budget = 70 if tier == "quick" else 600
     try:
         deep = not b.ok
@@ -507,7 +518,7 @@ def run(run, tier, seed, replay=None):
             per_file = []
             full = all_optsets(R_WORDS_QUICK)
             for k, (name, src, cls) in enumerate(files):
-                if tier == "thorough" or (deep and (cls == "defines" or (cls == "violating" and k % 4 == 0))):
+                if tier == "thorough" or (deep and (cls == "defines" or (cls == "violating" and k % 8 == 0))):
                     sets = [dict(o) for o in full] + sample_optsets(rnd, 24, R_WORDS_QUICK + R_WORDS_MORE)
                 elif cls == "defines":
                     sets = sample_optsets(rnd, 60, R_WORDS_QUICK + R_WORDS_MORE)
@@ -537,7 +548,7 @@ def run(run, tier, seed, replay=None):
         opt_procs = coqc_eval("opts", OPT_HEADER, ["map enc_case [" + ";\n ".join(c) + "]" for c in chunks]) if b.make_ok else None
         nlc = newline_cases(workdir) if replay is None else []
         nl_chunks = [nlc[i:i + 400] for i in range(0, len(nlc), 400)]
-        nl_procs = coqc_eval("nl", NL_HEADER, ["map nl [" + ";\n ".join("([" + "; ".join(str(ord(c)) for c in x) + "]%N : str)" for x, _ in c) + "]"
+        nl_procs = coqc_eval("nl", NL_HEADER, ["map nl [" + ";\n ".join("([" + "; ".join(str(ord(c)) for c in x) + "]%N : str)" for x, _, _ in c) + "]"
                                                for c in nl_chunks]) if (b.make_ok and nlc) else None
         # ---- the implementation
         tasks = [(k, files[k][0], files[k][1], files[k][2], per_file[k], workdir) for k in range(len(files))]
@@ -577,8 +588,7 @@ def run(run, tier, seed, replay=None):
                             "verdict": r.get("verdict"), "ndiags": len(r.get("diags", []))})
             # cases for the -R filter and the define check
             if base["kind"] == "verdict":
-                sk = [r for o, r, own in results if own is None and r["kind"] == "verdict" and skip_expected(o)
-                      and not (o["mode"] != "path" and "\r" in src)]
+                sk = [r for o, r, own in results if own is None and r["kind"] == "verdict" and skip_expected(o)]
                 if sk:
                     filter_cases.append((k, [d[1] for d in sorted(base["diags"])], sorted(base["diags"]), sorted(sk[0]["diags"])))
                 if cls == "defines":
@@ -625,11 +635,17 @@ def run(run, tier, seed, replay=None):
                 run.violation("correspondence-model-evaluation-failed", {"stage": "newlines", "error": errtxt})
             else:
                 for c, v in zip(nl_chunks, vals):
-                    for (x, real), m in zip(c, v):
-                        if "".join(chr(z) for z in m) != real:
-                            run.violation("correspondence-universal_newlines", {"bytes": repr(x), "model": m, "real": repr(real)})
-                run.count("correspondence: universal_newlines(model) vs File.source on all byte strings of length <= 6 over {a,CR,LF}",
-                          len(nlc), sum(1 for x, _ in nlc if "\r" in x))
+                    for (x, real, inl), m in zip(c, v):
+                        k_ = m.index(-1)
+                        if "".join(chr(z) for z in m[:k_]) != real:
+                            run.violation("correspondence-universal_newlines", {"bytes": repr(x), "model": m[:k_], "real": repr(real)})
+                        if x and "".join(chr(z) for z in m[k_ + 1:]) != inl:
+                            run.violation("correspondence-translate_inline", {"content": repr(x), "model": m[k_ + 1:],
+                                                                             "real_source_given_to_File": repr(inl),
+                                                                             "source_of_a_file_with_these_bytes": repr(real)})
+                run.count("correspondence: universal_newlines(model) vs File.source, translate_inline(model) vs the source main() hands "
+                          "to File for --cfile=<string>, on all strings of length <= 6 over {a,CR,LF}",
+                          2 * len(nlc) - 1, sum(1 for x, _, _ in nlc if "\r" in x))
         # ---- correspondence 2: filter_silenced on the real diagnostic lists, define_check on the #define lines
         if b.make_ok and (filter_cases or define_cases):
             def cs(x):
@@ -668,7 +684,7 @@ def run(run, tier, seed, replay=None):
         run.notes.append("runs compared with their reference: %(compared)d; excluded because some option set gives no verdict "
                          "(fatal without -d, crash): %(excluded_no_verdict)d; runs of files that are fatal without -d but reach a "
                          "verdict with -d/-dd (outside the property, compared among themselves): %(fatal_debug0_verdict_debug)d; "
-                         "-R CheckDefine runs: %(skip_runs)d; inline runs: %(inline_runs)d; runs that timed out twice (inconclusive): %(timeouts)d" % totals)
+                         "-R CheckDefine runs: %(skip_runs)d; inline runs (CR / CRLF contents included, no exception for them): %(inline_runs)d; runs that timed out twice (inconclusive): %(timeouts)d" % totals)
         run.notes.append("observed, outside the quantifier: `--cfile \"\"` (empty content) is falsy and main() falls back to the "
                          "directory scan (Props/C16.v C16_example_inline); an empty FILE gets `OK!`")
         extra = {"problems_by_kind": per_kind, "input_distribution": hist, "option_sets_per_file": {"min": min(map(len, per_file)), "max": max(map(len, per_file))},
